@@ -161,7 +161,10 @@ class BufGen:
             pool = (self.bufs() if p["l3_kernels"] else self.bufs()[N_ARGS:]) + extra
             nin = 2 if p["gen2"] and r.random() < 0.5 else 1
             picks = r.sample(pool, nin + 1)
-            return {"k": "gen", "ins": picks[:nin], "out": picks[nin], "tag": self.tag}
+            st = {"k": "gen", "ins": picks[:nin], "out": picks[nin], "tag": self.tag}
+            if p.get("gather") and r.random() < p["gather"]:
+                st["lut"] = r.choice([b for b in self.bufs()[N_ARGS:] if b != st["out"]])  # a local buffer the kernel body loads from
+            return st
         if k == "sync":
             return {"k": "sync"}
         if k == "op":
@@ -248,6 +251,8 @@ def buffers_of(st):
         if key in st:
             out.add(st[key])
     out.update(st.get("ins", []))
+    if st.get("lut"):
+        out.add(st["lut"])
     out.update(st.get("rot", [])[2:])
     out.update(st.get("res", [])[1:])
     for key in ("body", "then", "else", "entry", "b1", "b2"):
@@ -263,15 +268,17 @@ def alloc_text(b):
     return [f"{b} = memref.alloc() {{vsite = {int(b[2:])} : i64}} : {T1}"]
 
 
-def generic_text(ins, out, tag):
+def generic_text(ins, out, tag, lut=None):
     n = len(ins)
     maps = ", ".join(["affine_map<(d0) -> (d0)>"] * (n + 1))
     args = ", ".join(f"%x{j} : i32" for j in range(n + 1))
     instr = ", ".join(ins)
     intys = ", ".join(buf_type(b) for b in ins)
+    # lut: the body looks into a buffer it captures (gather / look-up table) instead of getting it as an operand
+    body = f"  %lv = memref.load {lut}[%c0] : {buf_type(lut)}\n  linalg.yield %lv : i32" if lut else "  linalg.yield %x0 : i32"
     return (
         f'linalg.generic {{indexing_maps = [{maps}], iterator_types = ["parallel"], doc = "k{tag}"}} '
-        f"ins({instr} : {intys}) outs({out} : {buf_type(out)}) {{\n^bb0({args}):\n  linalg.yield %x0 : i32\n}}"
+        f"ins({instr} : {intys}) outs({out} : {buf_type(out)}) {{\n^bb0({args}):\n{body}\n}}"
     )
 
 
@@ -297,7 +304,7 @@ def emit(ast) -> str:
             if k == "copy":
                 e(ind, f'"memref.copy"({s["src"]}, {s["dst"]}) {{vtag = {s["tag"]} : i64}} : ({buf_type(s["src"])}, {buf_type(s["dst"])}) -> ()')
             elif k == "gen":
-                e(ind, generic_text(s["ins"], s["out"], s["tag"]))
+                e(ind, generic_text(s["ins"], s["out"], s["tag"], s.get("lut")))
             elif k == "stream":
                 e(ind, stream_text(s))
             elif k == "sync":
@@ -453,6 +460,8 @@ def shrink_body(body):
                     yield body[:i] + [dict(s, **{key: nb})] + body[i + 1 :]
         if k == "gen" and len(s["ins"]) > 1:
             yield body[:i] + [dict(s, ins=s["ins"][:1])] + body[i + 1 :]
+        if k == "gen" and s.get("lut"):
+            yield body[:i] + [{kk: vv for kk, vv in s.items() if kk != "lut"}] + body[i + 1 :]
         if k == "op" and s["args"]:
             yield body[:i] + [dict(s, args=[])] + body[i + 1 :]
 
